@@ -189,6 +189,11 @@ def mir_edges(F, f):
             name = callee_name(fnj)
             short = fnj["def"]
             if cls == "panic":
+                if short.endswith("<impl char>::to_digit") or short.endswith("<impl char>::is_digit") or short.endswith("<impl char>::from_digit"):
+                    rx = _bits(t["args"][1]) if len(t["args"]) == 2 else None
+                    if rx is not None and 2 <= rx <= 36:
+                        discharged.append({"kind": "call", "what": short, "line": t["sp"][0], "argument": "constant radix %d in 2..=36" % rx})
+                        continue
                 if short == "rust_decimal::Decimal::new" and len(t["args"]) == 2:
                     sc = _bits(t["args"][1])
                     if sc is not None and sc <= 28:
